@@ -33,6 +33,15 @@ Theorem C13_history : forall id n ops, 1 <= n < two32 -> id <> EmptyString ->
 Proof. exact history_ok. Qed.
 Print Assumptions C13_history.
 
+(* the racing leaderCheck leaves a store behind that nobody leads; the next leaderCheck discards it
+   (this is what C13_history's drop clause demands of every ordinary leaderCheck) *)
+Example C13_race_healed :
+  let ops := [OStartLeading 0; OClusterSet "a"; OLeaderCheckRace 0] in
+  map fst (stores (run_state (init "me" 1) ops)) = [0]
+  /\ leaders (run_state (init "me" 1) ops) = []
+  /\ stores (run_state (init "me" 1) (ops ++ [OLeaderCheck])) = [].
+Proof. vm_compute. repeat split; reflexivity. Qed.
+
 (* non-vacuity: a concrete history in which leadership is gained, used, lost and a call is refused *)
 Example C13_history_nonvacuous :
   let ops := [OStartLeading 0; OStartLeading 1; OClusterSet "a"; OUpdate "a" "gw1";
